@@ -959,7 +959,7 @@ class CodeGenerator(NodeVisitor):
     def visit_Block(self, node: nodes.Block, frame: Frame) -> None:
         """Call a block and register it for the template."""
         level = 0
-        if frame.toplevel:
+        if frame.toplevel or frame.require_output_check:
             # if we know that we are a child template, there is no need to
             # check if we are one
             if self.has_known_extends:
@@ -1049,6 +1049,14 @@ class CodeGenerator(NodeVisitor):
 
     def visit_Include(self, node: nodes.Include, frame: Frame) -> None:
         """Handles includes."""
+        # If an extends is active, don't render outside a block.
+        if frame.require_output_check:
+            if self.has_known_extends:
+                return
+
+            self.writeline("if parent_template is None:")
+            self.indent()
+
         if node.ignore_missing:
             self.writeline("try:")
             self.indent()
@@ -1106,6 +1114,9 @@ class CodeGenerator(NodeVisitor):
             loop_body()
 
         if node.ignore_missing:
+            self.outdent()
+
+        if frame.require_output_check:
             self.outdent()
 
     def _import_common(
@@ -1382,12 +1393,23 @@ class CodeGenerator(NodeVisitor):
         self.macro_def(macro_ref, macro_frame)
 
     def visit_CallBlock(self, node: nodes.CallBlock, frame: Frame) -> None:
+        # If an extends is active, don't render outside a block.
+        if frame.require_output_check:
+            if self.has_known_extends:
+                return
+
+            self.writeline("if parent_template is None:")
+            self.indent()
+
         call_frame, macro_ref = self.macro_body(node, frame)
         self.writeline("caller = ")
         self.macro_def(macro_ref, call_frame)
         self.start_write(frame, node)
         self.visit_Call(node.call, frame, forward_caller=True)
         self.end_write(frame)
+
+        if frame.require_output_check:
+            self.outdent()
 
     def visit_FilterBlock(self, node: nodes.FilterBlock, frame: Frame) -> None:
         filter_frame = frame.inner()
